@@ -107,6 +107,18 @@ DESC = {
     'C17-4': ('a continuation in another unit appends the converted junction instant to Powertrain.time', 'continue with dt written in another time unit'),
     'C18-3': ('exporter skips the conversion when the first sample is already in the requested unit', 'load function returning torques in different units at different instants'),
     'C18-4': ('snapshot caches the time axis, rebuilt only when the number of instants changes', 'run, snapshot, reset, rerun with another step but the same number of instants, snapshot'),
+    'C11-3': ('time loop breaks early when the powertrain is locked and no motor control was passed', 'self-locking drive with a persistent lock, uncontrolled run'),
+    'C11-4': ('fresh-start logic keyed on "first run of this Solver object"', 'already simulated powertrain continued with a NEW Solver object'),
+    'C14-3': ('apply_rules raises only when the clipped proposals are distinct', 'two applicable rules proposing the same (clipped) value'),
+    'C14-4': ('PWMControl.__len__ added and the solver tests `if motor_control:`', 'a PWMControl without rules and a motor whose duty cycle is not already 1'),
+    'C15-3': ('efficiency helper of the rules skips worm gears', 'worm gear driven by its wheel, non-zero motor load'),
+    'C15-4': ('StartLimitCurrent uses the raw no-load current value', 'no-load and maximum current in different units'),
+    'C16-3': ('a stop condition already true at the junction is ignored in a resumed run until it was false once', 'run, then continue with a condition that holds at the junction'),
+    'C16-4': ('stop condition checked before the motor current is recomputed', 'amperometer-based stop conditions'),
+    'C19-3': ('no-load vs maximum current ordering checked through a plain float ratio', 'equal currents written in different units'),
+    'C19-4': ('pwm setter accepts values within 1e-12 above 1', 'duty cycle 1.0000000000000002 assigned directly'),
+    'C20-3': ('the last worm gear overwrites the self-locking flag', 'two worm pairs, the earlier self-locking, the later not'),
+    'C20-4': ('chain walk follows drives only while the follower points back', 'an element given a second master'),
 }
 
 
